@@ -589,7 +589,9 @@ def run(ctx, res):
             res.count("partition.more_chunks_than_pairs")
         case_partition(dc, {"kind": "partition", "n": n, "n_chunks": k}, res, tie, rng, budget_big)
     # malformed stream: errors on both sides
-    for (n, c, k) in [(3, 0, 0), (3, 3, 3), (3, 5, 2), (4, -1, 0), (0, 0, 1), (1, 0, 1), (2, 0, 5)]:
+    # (.., -1, 2), (.., -2, 3): negative start -> islice ValueError; (3, -3, -2): start 3, end 2 -> negative islice count
+    for (n, c, k) in [(3, 0, 0), (3, 3, 3), (3, 5, 2), (4, -1, 0), (0, 0, 1), (1, 0, 1), (2, 0, 5), (3, -1, 2), (5, -2, 3), (3, -3, -2),
+                      (4, -5, -2), (6, -1, 4)]:
         try:
             v = show_pairs(dc.get_lower_triangular_indices_chunk(n, c, k))
         except (AssertionError, ZeroDivisionError, ValueError):
